@@ -2,6 +2,12 @@
 """Regenerates /verif/MANIFEST.json from the table below (one row per claimed property)."""
 import json, subprocess
 CHECKS = {
+ "C03": ("A", "bounded-exhaustive enumeration of a rule fragment x word space against a reference interpreter (stateless exploration of the real parser + Rule::apply)",
+         "Every rule of the basic fragment over a fixed item alphabet (quick: 10 619 rules with one environment item per side, as context and as exception; thorough: two items per side, context x exception, environment sets of two, 0.3 M rules) is run on every word of W(I4,4) / W(I3,5) / W(I4,5) in every syllabification and compared structurally with an independent 150-line reference interpreter written from the manual. No sampling: boxes are completed or the run fails.",
+         "Trusts harness/src/refint.rs. Bounded by the item alphabet (9 segment items, $, #), <= 2 items per side, words <= 5 segments over 3-4 phones; the window argument of DESIGN §6 explains why this exhibits every neighbourhood. Cases with equal adjacent segments inside a syllable are skipped as the property says.", "DESIGN.md §5 C03"),
+ "C05": ("A", "exhaustive enumeration of the state x modifier x element-kind x role x position table against a table model",
+         "All 36 suprasegmental states x all 404 non-empty modifier combinations x 4 element kinds x {input modifier, output matrix} x 3 positions of the target in its syllable (271 296 cases) run through the real parser and interpreter and are judged by a table model with accept-sets where the manual only constrains. The space named by the property is finite and fully covered.",
+         "Trusts the 40-line table in harness/src/props/c05.rs (from doc.md §Stress/§Length/§Tone). Context-free rules, one target per word (frame syllables are consonant-only).", "DESIGN.md §5 C05"),
  "C04": ("A", "bounded-exhaustive enumeration (all base phones [+ all base+1-diacritic bundles] x all 26 features / 5 place nodes / 26x26 alpha pairs) against a bit-level reference model",
          "The space the property names is finite: every segment of the IPA table (thorough: plus every distinct bundle the word parser accepts for base+one diacritic, ~6 k) x every single-feature / single-node matrix as output and as input probe x every ordered feature pair for alpha transfer (plain and inverted). Each case runs the real parser and Rule::apply and is compared structurally with a 60-line bit model; all cases are enumerated, none sampled.",
          "Trusts harness/src/model.rs (bit layout from the rustdoc; set/match semantics from doc.md). One-segment words only: interaction with neighbours is C03's business.", "DESIGN.md §5 C04"),
